@@ -1390,7 +1390,7 @@ func c10Describe(env *c10Env, h *c10Hist) map[string]any {
 // ---- the test --------------------------------------------------------------
 
 func TestVerifC10(t *testing.T) {
-	m := vk.NewMonitor("C10", "", "exploration",
+	m := vk.NewMonitor("C10", "main", "exploration",
 		"seeded histories of 20-200 cache operations (query via HandleWithResponseWriter_ with a stub upstream, store via NormalizeAndCacheDnsResp_, "+
 			"upstream-ready insert, RemoveDnsRespCache, RemoveDnsRespCacheFamily incl. reject-routed queries, janitor eviction at chosen tick times, LRU, "+
 			"expiry lookups, asynchronous refresh triggers with the worker run at once or held back 1-3 ops (parked before or after its liveness check), "+
